@@ -1457,17 +1457,20 @@ class timed_window_unique(Stream):
             return x[self.key]
 
     def update(self, x, who=None, metadata=None):
-        self._retain_refs(metadata)
         y = self._get_key(x)
         if self.keep == "last":
             # remove key if already present so that emitted value
             # will reflect elements' actual relative ordering
             self._buffer.pop(y, None)
-            self._metadata_buffer.pop(y, None)
+            replaced = self._metadata_buffer.pop(y, None)
+            if replaced:
+                self._release_refs(replaced)
+            self._retain_refs(metadata)
             self._buffer[y] = x
             self._metadata_buffer[y] = metadata
         else:  # self.keep == "first"
             if y not in self._buffer:
+                self._retain_refs(metadata)
                 self._buffer[y] = x
                 self._metadata_buffer[y] = metadata
         return self.last
